@@ -219,6 +219,17 @@ func main() {
 		}
 		return true
 	}, 30*time.Second)
+	// deliveries that a vanished session never acknowledged keep their identifier until their 3 s deadline has passed and the writer's
+	// next sweep (once a second) has released it: "no identifier is still held" is claimed of the broker at rest, so give the sweeps the
+	// time they are entitled to (vp check on a slower machine probed 6 identifiers too early).  A leak is still held after 20 s.
+	waitFor(func() bool {
+		for _, n := range w.Nodes {
+			if len(wasp.VerifPoolOutstanding(n.Writer)) != 0 {
+				return false
+			}
+		}
+		return true
+	}, 20*time.Second)
 	w.PumpAll()
 	f, _ := os.Create(*out)
 	bw := bufio.NewWriter(f)
